@@ -239,3 +239,71 @@ Theorem find_next_end_spec f cpos :
               else match next_visit cpos d None with Some (_, e) => e | None => 0 end
   end.
 Proof. unfold find_next_end. rewrite nth_first_index. reflexivity. Qed.
+
+(* ---------- the four scopes, composed ---------- *)
+Section Scopes.
+Variable f : file.
+Variable c : comment.
+
+Definition enclosing : option node := find (fun d => n_end d >? c_pos c) (f_decls f).
+Definition prev_ends_on_line : bool :=
+  match first_index (fun d => n_end d >? c_pos c) (f_decls f) 0 with
+  | O => false
+  | S j => match nth_error (f_decls f) j with Some d => line_of f (n_end d) =? line_of f (c_pos c) | None => false end
+  end.
+
+(* (a) before the package clause: the whole file *)
+Lemma scope_file_level : c_pos c < f_package f -> comment_scope f c = Some (c_pos c, f_end f).
+Proof. intros H. unfold comment_scope. apply Z.ltb_lt in H. rewrite H. reflexivity. Qed.
+
+(* (b) standing alone before a top-level declaration d (no declaration ends on its line): from the comment to the end of d *)
+Lemma scope_before_decl d :
+  f_package f <= c_pos c -> prev_ends_on_line = false -> enclosing = Some d -> c_pos c < n_pos d -> 0 < n_end d ->
+  comment_scope f c = Some (c_pos c, n_end d).
+Proof.
+  intros Hp Hprev Hd Hlt Hend. unfold comment_scope. replace (c_pos c <? f_package f) with false by (symmetry; apply Z.ltb_ge; exact Hp).
+  unfold find_inline. fold prev_ends_on_line. rewrite Hprev. rewrite nth_first_index. fold enclosing. rewrite Hd.
+  replace (c_pos c <? n_pos d) with true by (symmetry; apply Z.ltb_lt; exact Hlt).
+  rewrite find_next_end_spec. fold enclosing. rewrite Hd.
+  replace (c_pos c <? n_pos d) with true by (symmetry; apply Z.ltb_lt; exact Hlt).
+  replace (n_end d =? 0) with false by (symmetry; apply Z.eqb_neq; lia). reflexivity.
+Qed.
+
+(* (c) inside a declaration d with code on its line before it: its own source line *)
+Lemma scope_inline d ls :
+  f_package f <= c_pos c -> prev_ends_on_line = false -> enclosing = Some d -> n_pos d <= c_pos c ->
+  has_code_on_line f (c_pos c) (line_of f (c_pos c)) d = true -> line_start f (line_of f (c_pos c)) = Some ls ->
+  comment_scope f c = Some (ls, c_end c).
+Proof.
+  intros Hp Hprev Hd Hge Hcode Hls. unfold comment_scope. replace (c_pos c <? f_package f) with false by (symmetry; apply Z.ltb_ge; exact Hp).
+  unfold find_inline. fold prev_ends_on_line. rewrite Hprev. rewrite nth_first_index. fold enclosing. rewrite Hd.
+  replace (c_pos c <? n_pos d) with false by (symmetry; apply Z.ltb_ge; exact Hge). rewrite Hcode, Hls. reflexivity.
+Qed.
+
+(* (c') trailing the last token of a top-level declaration: its own source line as well *)
+Lemma scope_trailing_decl ls :
+  f_package f <= c_pos c -> prev_ends_on_line = true -> line_start f (line_of f (c_pos c)) = Some ls ->
+  comment_scope f c = Some (ls, c_end c).
+Proof.
+  intros Hp Hprev Hls. unfold comment_scope. replace (c_pos c <? f_package f) with false by (symmetry; apply Z.ltb_ge; exact Hp).
+  unfold find_inline. fold prev_ends_on_line. rewrite Hprev, Hls. reflexivity.
+Qed.
+
+(* (d) standing alone inside a declaration d: from the comment to the end of the FIRST node of d, in source order, that
+   starts after it - the whole following statement when the comment stands before a statement *)
+Lemma scope_inside_body d x rest :
+  f_package f <= c_pos c -> prev_ends_on_line = false -> enclosing = Some d -> n_pos d <= c_pos c ->
+  has_code_on_line f (c_pos c) (line_of f (c_pos c)) d = false ->
+  after_sorted_b (c_pos c) d = true -> after (c_pos c) (preorder d) = x :: rest -> 0 < n_end x ->
+  comment_scope f c = Some (c_pos c, n_end x).
+Proof.
+  intros Hp Hprev Hd Hge Hcode Hsorted Hafter Hend. unfold comment_scope.
+  replace (c_pos c <? f_package f) with false by (symmetry; apply Z.ltb_ge; exact Hp).
+  unfold find_inline. fold prev_ends_on_line. rewrite Hprev. rewrite nth_first_index. fold enclosing. rewrite Hd.
+  replace (c_pos c <? n_pos d) with false by (symmetry; apply Z.ltb_ge; exact Hge). rewrite Hcode.
+  rewrite find_next_end_spec. fold enclosing. rewrite Hd.
+  replace (c_pos c <? n_pos d) with false by (symmetry; apply Z.ltb_ge; exact Hge).
+  rewrite (next_visit_first_after_b (c_pos c) d Hsorted). unfold first_after. rewrite Hafter.
+  replace (n_end x =? 0) with false by (symmetry; apply Z.eqb_neq; lia). reflexivity.
+Qed.
+End Scopes.
